@@ -52,7 +52,11 @@ class C26(Prop):
   assumptions = ["tuples are not generated (JSON has no tuple)", "NaN/inf are excluded by the statement"]
 
   def strategy(self, tier):
+    # names that are also attribute names of the registry object are ordinary signal names
     names = st.one_of(st.text(max_size=12), st.sampled_from(["ENTRY_SIGNAL", "INIT_SIGNAL", "VA", "VB"]),
+                      st.sampled_from(["items", "keys", "values", "pop", "get", "update", "clear", "copy", "append",
+                                       "highest_inner_signal", "is_inner_signal", "name_for_signal", "__dict__",
+                                       "__class__", "move_to_end", "popitem", "setdefault", "fromkeys"]),
                       st.text(alphabet="ABCDEFGHIJ_", min_size=1, max_size=8))
     return st.fixed_dictionaries({"name": names, "payload": json_payload,
                                   "foreign": st.integers(0, 2).map(lambda i: i == 0)})
